@@ -44,10 +44,10 @@ type Prog struct {
 
 // LoadOpts selects how the tree is loaded.
 type LoadOpts struct {
-	Repo    string
-	Overlay map[string][]byte // absolute path -> contents (mutants for the self-test)
-	Env     []string          // extra environment (GOOS/GOARCH for the thorough tier)
-	AllSyntax bool            // also parse dependencies (needed for SSA)
+	Repo      string
+	Overlay   map[string][]byte // absolute path -> contents (mutants for the self-test)
+	Env       []string          // extra environment (GOOS/GOARCH for the thorough tier)
+	AllSyntax bool              // also parse dependencies (needed for SSA)
 }
 
 // Load type-checks ./... of the repository. It fails closed: zero packages,
